@@ -5,5 +5,6 @@ CONSTANTS Peers = {"a", "b"}
           MaxEnv = 2
           MaxFire = 2
           MaxDialFail = 1
+          StopOrders = {"cancel-first"}
           Devs = {"Dev_C46_RearmAfterStop"}
 INVARIANTS NoDialAfterStop
